@@ -307,6 +307,55 @@ def _nonsingular(cfg, a, high, A, B, dims):
     return True
 
 
+def systematic_configs(seed=0, classes=None):
+    """deterministic family: for every grid class two non-uniform grids with two cells per axis
+    (sizes ascending / descending, so that first and last cell always differ) times every
+    combination of velocity signs per axis - the inputs on which boundary corrections of one side,
+    one axis and one sign differ from their siblings"""
+    import random as _r
+    out = []
+    for cls in classes or drive.CLASSES:
+        d = drive.dim(cls)
+        for asc in (True, False):
+            for signs in itertools.product([1, -1], repeat=d):
+                rng = _r.Random(hash((seed, cls, asc, signs)) & 0xffffffff)
+                cfg = gen_config(rng, cls, nmax=2, allow_periodic=False)
+                faces = []
+                for a in range(d):
+                    lab = drive.AXIS_LABELS[cls][a]
+                    lo = Fr(1) if lab in ("r", "theta") else Fr(0)
+                    steps = [Fr(1), Fr(2)] if asc else [Fr(2), Fr(1)]
+                    if cls == "SphericalGrid3D" and lab == "theta":
+                        lo, steps = (Fr(1), [Fr(1), Fr(1)])       # keep the surrogate metric tame
+                        if not asc:
+                            lo, steps = (Fr(0), [Fr(2), Fr(1)])
+                    if cls == "SphericalGrid3D" and lab == "r":
+                        lo, steps = ((Fr(1), [Fr(1), Fr(2)]) if asc else (Fr(0), [Fr(2), Fr(2)]))
+                    faces.append([lo, lo + steps[0], lo + steps[0] + steps[1]])
+                cfg["faces"] = [[enc(x) for x in f] for f in faces]
+                dims = [2] * d
+                full = [4] * d
+                cfg["u"] = [nested(face_shape(dims, a), lambda ix, a=a: enc(signs[a] * rng.choice([1, 2]))) for a in range(d)]
+                cfg["uup"] = [nested(face_shape(dims, a), lambda ix, a=a: enc(signs[a] * rng.choice([1, 3]))) for a in range(d)]
+                cfg["D"] = [nested(face_shape(dims, a), lambda ix: enc(rng.choice([1, 2, 3]))) for a in range(d)]
+                cfg["beta"] = nested(dims, lambda ix: enc(rng.choice([0, 1, 2])))
+                cfg["gamma"] = nested(dims, lambda ix: enc(rng.choice([-2, -1, 0, 1, 2, 3])))
+                cfg["alpha"] = nested(dims, lambda ix: enc(rng.choice([1, 2, 3])))
+                cfg["phi"] = nested(full, lambda ix: enc(rng.choice([-2, -1, 0, 1, 2, 3])))
+                bc = {}
+                for a in range(d):
+                    for s_ in SIDES[a]:
+                        shp = trans_shape(dims, a)
+                        bc[s_] = {"a": nested(shp, lambda ix: enc(0)), "b": nested(shp, lambda ix: enc(1)),
+                                  "c": nested(shp, lambda ix: enc(rng.choice([-1, 0, 1, 2]))), "periodic": False,
+                                  "kind": "dirichlet"}
+                cfg["bc"] = bc
+                cfg["closed"] = False
+                cfg["systematic"] = True
+                out.append(cfg)
+    return out
+
+
 def gen_means_config(rng, cls, nmax=3, positive=True, zeros=False):
     """cell sizes in {1, 2} (integer widths) and, for positive data, sixth powers {1, 64, 729}
     so that every weighted geometric mean is rational"""
